@@ -19,10 +19,19 @@ centred differences / residues modulo 8 of the location, evaluated by the kernel
 (`decide +kernel`) over all parameter values.  Evenness of the sides is used exactly where the class
 needs it: the colour `(x+y+z) % 8` of a cell must survive the wrap-around.
 
-The rank clause (GF(2) rank of the generators `= n − k`) is NOT proved here for all sizes; it is
-covered by the kernel-checked instances of `Properties/C01.lean` (`valid_Color3DCode_partial`).
+The rank clause (GF(2) rank of the generators `= n − k = 12·LxLyLz − 9`) is proved here for all
+sizes only in its Z-type half: `z_generators_independent_partial` — an explicit family of
+`2·LxLyLz − 3` cell generators (all cells but a red, a yellow and a green one; the three relations
+"the cells of one colour multiply to the cells of another colour" are the only ones) is
+GF(2)-independent, by a peeling order with one witness qubit per cell (a starting line of cells in
+`y`, then the slab `z ≤ 6` in `x`, then layer by layer in `z`; `Proofs/LatColor3DCodeRank*.lean`).
+MISSING for `valid_code`: the X-type half, `10·LxLyLz − 6` independent face generators (the faces of
+every cell satisfy two local relations, so the family needs a 2-D ordered seam region; no closed form
+found yet); the full rank clause is covered by the kernel-checked instances of `Properties/C01.lean`
+(`valid_Color3DCode_partial`).
 -/
 import PanqecVerif.Proofs.LatColor3DCodeP
+import PanqecVerif.Proofs.LatColor3DCodeRankC
 
 namespace Panqec.C01Color3DCode
 open Panqec.Color3DCode Panqec.Lat2D Panqec.Color
@@ -104,6 +113,19 @@ theorem hexagon_membrane_rule (Lx Ly Lz : Nat) (h : Family Lx Ly Lz) (q : Coord)
       ∃ y z, InH Ly y ∧ InH Lz z ∧ (y + z) % 8 = 0 ∧ q ∈ keys Lx Ly Lz 3 y z :=
   mem_kZ3 h.1.1 h.2.1.1 h.2.2.1 h.1.2 h.2.1.2 h.2.2.2
 
+/-- PARTIAL rank clause (Z-type half), every side `≥ 2`: the `2·LxLyLz − 3` cell generators of
+    `selCells` (every cell of `get_stabilizer_coordinates` except `(6,2,2)`, `(6,2,6)`, `(4,4,4)` — a
+    red, a yellow and a green cell) are distinct stabilizer locations whose operators are
+    GF(2)-independent: no non-empty sub-family has even Z-parity (and X-parity) on every qubit.
+    Hence the GF(2) rank of the stabilizer matrix is at least `2·LxLyLz − 3`.
+    MISSING for the full rank clause `rank = n − k`: `10·LxLyLz − 6` independent face generators. -/
+theorem z_generators_independent_partial (Lx Ly Lz : Nat) (hx : 2 ≤ Lx) (hy : 2 ≤ Ly) (hz : 2 ≤ Lz) :
+    (selCells Lx Ly Lz).Nodup ∧ (∀ s ∈ selCells Lx Ly Lz, s ∈ (lattice Lx Ly Lz).stabs) ∧
+    (selCells Lx Ly Lz).length + 3 = 2 * (Lz * (Lx * Ly)) ∧
+    Cubic3D.OpsIndep ((selCells Lx Ly Lz).map (lattice Lx Ly Lz).getStab) :=
+  ⟨nodup_selCells Lx Ly Lz, selCells_sub, length_selCells Lx Ly Lz hx (by omega) hz,
+    cells_indep hx hy hz⟩
+
 /-- the class defines no deformation: the inherited `get_deformation` RETURNS a
     `NotImplementedError` instance for every name and location -/
 theorem deformation_rule (name : String) (loc : Coord) :
@@ -120,6 +142,9 @@ example : (lattice 2 2 2).WF := wf 2 2 2 (by decide)
 example : (lattice 2 4 6).CommPair := commPair 2 4 6 (by decide)
 example : (lattice 2 2 4).toCodeData.n = 192 := n_formula 2 2 4 (by decide) (by decide) (by decide)
 example : (lattice 2 2 2).stabs.length = 189 := n_stabilizers 2 2 2
+example : (selCells 2 2 2).length = 13 := by decide
+example : Cubic3D.OpsIndep ((selCells 2 4 6).map (lattice 2 4 6).getStab) :=
+  (z_generators_independent_partial 2 4 6 (by decide) (by decide) (by decide)).2.2.2
 example : typeOf 2 2 6 = StabType.red := by decide
 example : typeOf 4 4 4 = StabType.green := by decide
 example : stabilizerType 2 2 2 [2, 2, 2] = some StabType.yellow := by decide
